@@ -3,6 +3,7 @@
 import json, glob, os, re
 V = os.path.dirname(os.path.dirname(os.path.abspath(__file__)))
 rows = []
+ndet = 0
 for d in sorted(glob.glob(os.path.join(V, "seeded", "*"))):
     mp = os.path.join(d, "meta.json")
     if not os.path.exists(mp):
@@ -20,6 +21,8 @@ for d in sorted(glob.glob(os.path.join(V, "seeded", "*"))):
             caught.append(mm.group(1))
         else:
             caught.append("%s: not detected" % mm.group(1))
+    if any("not detected" not in c for c in caught):
+        ndet += 1
     ok = all(m.get("confirmed", {}).values())
     rows.append("| `%s` | %s | %s | %s | %s |" % (m["name"], m["breaks_property"], m.get("needs_to_manifest", "").replace("|", "/"),
                                                  "; ".join(caught) or "-", m.get("note", "confirmed" if ok else "NOT confirmed")))
@@ -27,7 +30,7 @@ text = ["### 14.6 Independent seeded changes (sub-agents given only the property
         "Each change was confirmed in a scratch worktree outside /repo and /verif (`tools/seedcheck.sh`: it builds, the",
         "existing suite passes with it, its demonstration fails with it and passes without it) and kept under",
         "`/verif/seeded/<name>/` (patch.diff, demonstration, meta.json). Column *caught by* is the quick check run against",
-        "the changed tree and the first failing oracle. %d changes, %d detected." % (len(rows), sum("not detected" not in r for r in rows)), "",
+        "the changed tree and the first failing oracle. %d changes, %d detected." % (len(rows), ndet), "",
         "| seeded change | property | what it needs to manifest | caught by | note |", "|---|---|---|---|---|"] + rows + [""]
 p = os.path.join(V, "DESIGN.md")
 s = open(p).read()
